@@ -196,7 +196,7 @@ void msg_ops(G &g, int nops, bool with_names, bool with_replies, bool forged, bo
       else if (broadcasts) dest = "";
       else dest = "$u" + std::to_string(g.a_client());
       int64_t type = g.r.pct(60) ? 1 : (int64_t)g.r.range(1, 4);
-      if (dest.empty()) type = 4;
+      if (dest.empty()) type = g.r.pct(80) ? 4 : 1;   // destination-less calls are answered by the bus itself
       int64_t flags = g.r.pct(25) ? (int64_t)g.r.below(4) : 0;
       std::string iface = ifaces[g.r.below(3)];
       if (type == 4 && iface.empty()) iface = ifaces[0];
